@@ -77,6 +77,7 @@ def alias_protocol(pid='C15'):
                                ': the registry keeps a stale entry for a live object', where, 'protocol'))
     obs.extend(no_reinit(pid, classes))
     obs.extend(setitem_ids(pid, classes))
+    obs.extend(fresh_storage(pid))
     return obs
 
 
@@ -134,6 +135,96 @@ def setitem_ids(pid, classes):
                 '' if ok else 'check_writable is not asked about the tuple currently held', None, 'protocol')]
 
 
+def fresh_storage(pid='C15'):
+    """C15: a new vector never gets the operand's own tuple object as its storage.
+    `tuple(t) is t`, `t[:] is t` and `t + () is t` in CPython, so a construction whose data
+    argument may be the receiver's tuple (or the caller's) must pass through list(...) /
+    a comprehension / a generator."""
+    obs = []
+    classes = load_classes()
+    for (cname, mname, line), (fname, cnode, fn) in sorted(classes.items()):
+        if fname != 'vector.py' or mname in ('__init__', '__new__'):
+            continue
+        info = FnInfo(cname, fn)
+        q = f'{fname[:-3]}.{cname}.{mname}'
+        for n in ast.walk(fn):
+            if not (isinstance(n, ast.Call) and isinstance(n.func, ast.Name) and n.func.id in ('Vector', 'cls') and n.args):
+                continue
+            arg = n.args[0]
+            kind = _storage_kind(info, arg, n)
+            site = f'{pid}:{q}:fresh-storage'
+            where = f'{fname}:{n.lineno} {ast.unparse(arg)[:70]}'
+            if kind in ('fresh', 'caller'):
+                obs.append(_ob(site, 'discharged', q, kind='protocol'))
+            elif kind == 'shared':
+                obs.append(_ob(site, 'refuted', q, 'the new vector may be built directly over an existing tuple object (tuple(t) is t, t[:] is t, t + () is t): it would share storage with a live vector and both become unwritable',
+                               where, 'protocol'))
+            else:
+                obs.append(_ob(site, 'undecided', q, f'cannot classify the storage argument at {where}', kind='protocol'))
+    return obs
+
+
+def _storage_kind(info, arg, at, depth=0):
+    if isinstance(arg, (ast.List, ast.ListComp, ast.GeneratorExp, ast.SetComp)):
+        return 'fresh'
+    if isinstance(arg, ast.Tuple):
+        return 'fresh'          # a literal tuple display builds a new tuple (empty one is the shared (), never registered)
+    if isinstance(arg, ast.Call) and isinstance(arg.func, ast.Name):
+        if arg.func.id in ('list', 'sorted'):
+            return 'fresh'
+        if arg.func.id == 'tuple' and arg.args:
+            inner = arg.args[0]
+            if isinstance(inner, (ast.GeneratorExp, ast.ListComp, ast.List)):
+                return 'fresh'
+            if isinstance(inner, ast.Name) and inner.id in info.params and info.fn.name != 'copy':
+                return 'caller'
+            if isinstance(inner, ast.Call) and isinstance(inner.func, ast.Name) and inner.func.id in ('list', 'sorted'):
+                return 'fresh'
+            return _storage_kind(info, inner, at, depth + 1)
+    if isinstance(arg, ast.BinOp) and isinstance(arg.op, ast.Add):
+        l, r = _storage_kind(info, arg.left, at, depth + 1), _storage_kind(info, arg.right, at, depth + 1)
+        # tuple + tuple is the left (right) operand itself when the other side is empty
+        if l == 'fresh' and r == 'fresh':
+            return 'fresh'
+        if any(isinstance(x, (ast.Tuple, ast.List)) and x.elts for x in (arg.left, arg.right)):
+            return 'fresh'      # a non-empty literal on either side forces a new tuple
+        if isinstance(arg.left, ast.Call) and getattr(arg.left.func, 'id', '') == 'list':
+            return 'fresh'
+        return 'shared' if 'shared' in (l, r) else 'unknown'
+    if isinstance(arg, ast.Attribute) and arg.attr == '_underlying':
+        return 'shared'
+    if isinstance(arg, ast.Subscript):
+        return _storage_kind(info, arg.value, at, depth + 1)
+    if isinstance(arg, ast.IfExp):
+        ks = {_storage_kind(info, arg.body, at, depth + 1), _storage_kind(info, arg.orelse, at, depth + 1)}
+        return 'shared' if 'shared' in ks else ('unknown' if 'unknown' in ks else ('caller' if 'caller' in ks else 'fresh'))
+    if isinstance(arg, ast.Name) and depth < 4:
+        rd = info.reaching_def(arg.id, _enclosing_stmt(info, at))
+        if rd is not None:
+            return _storage_kind(info, rd, at, depth + 1)
+        if arg.id in info.params:
+            # data handed in by the user is "caller-supplied storage" (sharing it is the documented
+            # behaviour); the internal helper `copy` receives tuples derived from the receiver
+            return 'shared' if info.fn.name in ('copy',) else 'caller'
+        vals = [node for kind, node, pos in info.bindings.get(arg.id, []) if kind == 'expr']
+        if vals:
+            kinds = {_storage_kind(info, v, at, depth + 1) for v in vals}
+            if kinds == {'fresh'}:
+                return 'fresh'
+            if 'shared' in kinds:
+                return 'shared'
+    return 'unknown'
+
+
+def _enclosing_stmt(info, node):
+    best = None
+    for st in ast.walk(info.fn):
+        if isinstance(st, ast.stmt) and any(x is node for x in ast.walk(st)):
+            if best is None or (st.lineno >= best.lineno and st.end_lineno <= best.end_lineno):
+                best = st
+    return best
+
+
 def fingerprint_protocol(pid='C16'):
     """C16: the memo is dropped on every storage swap, and a Table does not trust a memo
     that its columns (writable through live views) cannot invalidate."""
@@ -146,10 +237,24 @@ def fingerprint_protocol(pid='C16'):
         if mname == '__init__':
             continue
         for val, stmt in _self_underlying_stores(info, fn):
-            later = [s for s in ast.walk(fn) if isinstance(s, ast.stmt) and s.lineno > stmt.lineno]
-            inval = any(_calls(s, '_invalidate_fp') for s in later) or \
-                any(isinstance(s, ast.Assign) and any(isinstance(t, ast.Attribute) and t.attr == '_fp' for t in s.targets)
-                    and isinstance(s.value, ast.Constant) and s.value.value is None for s in later)
+            block, bi = _find_block(fn, stmt)
+            later = list(block[bi + 1:]) if block is not None else []
+            # statements following the enclosing statements also run unconditionally after the store
+            later += [s for s in fn.body if s.lineno > stmt.lineno and s not in later]
+
+            def _is_inval(s):
+                if isinstance(s, ast.Expr) and isinstance(s.value, ast.Call) and isinstance(s.value.func, ast.Attribute) \
+                        and s.value.func.attr == '_invalidate_fp':
+                    return True
+                return isinstance(s, ast.Assign) and any(isinstance(t, ast.Attribute) and t.attr == '_fp' for t in s.targets) \
+                    and isinstance(s.value, ast.Constant) and s.value.value is None
+            inval = any(_is_inval(s) for s in later)
+            # the memo may not be re-used or patched on the way (incremental updates keep it alive)
+            patched = [s for s in ast.walk(fn) if isinstance(s, (ast.Assign, ast.AugAssign)) and
+                       any(isinstance(t, ast.Attribute) and t.attr == '_fp' for t in (s.targets if isinstance(s, ast.Assign) else [s.target]))
+                       and not (isinstance(getattr(s, 'value', None), ast.Constant) and s.value.value is None)]
+            if patched and mname != 'fingerprint':
+                inval = False
             site = f'{pid}:{q}:memo-dropped'
             if inval:
                 obs.append(_ob(site, 'discharged', q, kind='protocol'))
@@ -287,6 +392,6 @@ def obligations(pid):
         return alias_protocol(pid)
     if pid == 'C16':
         return fingerprint_protocol(pid)
-    if pid == 'C17':
+    if pid in ('C17', 'C07', 'C08'):
         return column_map_protocol(pid)
     return []
